@@ -16,3 +16,45 @@ package grpcutil
 //@           invariant hexCount == 0 ==> forall k int :: 0 <= k && k < i ==> !escByte(msg[k])
 //@   loop 1: invariant 0 <= i && i < len(msg)
 //@           invariant forall k int :: 0 <= k && k < len(sbContent[out]) ==> sbContent[out][k] >= 32 && sbContent[out][k] <= 126
+
+// ---- metadata <-> header lists ----
+
+//@ elemvalues []*conformancev1.Header: v != nil
+
+// value i of header h as it goes into gRPC metadata: "-bin" values are base64-decoded
+// (left as they are if they do not decode)
+//@ spec mdValue(name string, v string) string = (hasSuffix(strLower(name), "-bin") && binDecodes(v)) ? b64dec(v) : v
+// number of values contributed to key k by the first n headers, and the j-th of them
+//@ spec mdLen(src []*conformancev1.Header, n int, k string) int =
+//@    n <= 0 ? 0 : mdLen(src, n - 1, k) + (strLower(src[n-1].Name) == k ? len(src[n-1].Value) : 0)
+//@ spec mdAt(src []*conformancev1.Header, n int, k string, j int) string =
+//@    n <= 0 ? "" : ((strLower(src[n-1].Name) == k && j >= mdLen(src, n - 1, k)) ? mdValue(src[n-1].Name, src[n-1].Value[j - mdLen(src, n - 1, k)]) : mdAt(src, n - 1, k, j))
+
+//@ spec keySeen(src []*conformancev1.Header, n int, k string) bool = n > 0 && (keySeen(src, n - 1, k) || strLower(src[n-1].Name) == k)
+
+// Every key (up to letter case) keeps every value of every header carrying it, in order.
+//@ func ConvertProtoHeaderToMetadata
+//@   modifies nothing
+//@   ensures result != nil && fresh(result)
+//@   ensures @keys forall k string :: has(result, k) == old(keySeen(src, len(src), k))
+//@   ensures @values forall k string :: has(result, k) ==> len(result[k]) == old(mdLen(src, len(src), k)) &&
+//@        (forall j int :: 0 <= j && j < len(result[k]) ==> result[k][j] == atpre(mdAt(src, len(src), k, j)))
+//@   loop 0: invariant asMetadata != nil && fresh(asMetadata)
+//@           invariant forall k string :: has(asMetadata, k) == atpre(keySeen(src, rangeindex + 1, k))
+//@           invariant forall k string :: has(asMetadata, k) ==> (slicebase(asMetadata[k]) == 0 || fresh(asMetadata[k])) && allocated(asMetadata[k]) && len(asMetadata[k]) == atpre(mdLen(src, rangeindex + 1, k))
+//@           invariant forall k1 string, k2 string :: has(asMetadata, k1) && has(asMetadata, k2) && k1 != k2 && slicebase(asMetadata[k1]) != 0 ==> slicebase(asMetadata[k1]) != slicebase(asMetadata[k2])
+//@           invariant forall k string, j int :: has(asMetadata, k) && 0 <= j && j < len(asMetadata[k]) ==> asMetadata[k][j] == atpre(mdAt(src, rangeindex + 1, k, j))
+//@   loop 1: invariant fresh(vals) && len(vals) == len(hdr.Value) && asMetadata != nil
+//@           invariant forall k string :: has(asMetadata, k) ==> arrayof(asMetadata[k]) == atentry(arrayof(asMetadata[k])) && allocated(asMetadata[k]) && slicebase(asMetadata[k]) != slicebase(vals)
+//@           invariant forall t int :: 0 <= t && t <= rangeindex ==> vals[t] == atpre(mdValue(hdr.Name, hdr.Value[t]))
+
+//@ lemma mdLenUnseen(src []*conformancev1.Header, n int, k string)
+//@   requires !keySeen(src, n, k)
+//@   ensures mdLen(src, n, k) == 0
+//@   induct mdLenUnseen(src, n - 1, k) when n > 0
+//@   decreases n
+//@ lemma mdLenNonNeg(src []*conformancev1.Header, n int, k string)
+//@   requires true
+//@   ensures mdLen(src, n, k) >= 0
+//@   induct mdLenNonNeg(src, n - 1, k) when n > 0
+//@   decreases n
